@@ -377,6 +377,13 @@ def check_C07(A: Analysis, tier):
     no_dir_removal_rule(A, rh)
     rules.append(rh)
 
+    _src12 = [r for r in rules_of(A, "C12") if r.rid == "C12.h"][0]
+    rl7 = Rule("C07", "C07.l", "every directory creation tolerates a concurrent creator (shared with C12.h): two stores whose identifiers share a shard directory hold "
+               "different claims, so a check-then-mkdir makes one of them fail although every sequential order lets both succeed", floor=_src12.floor)
+    rl7.instances, rl7.nontrivial, rl7.obligations = list(_src12.instances), set(_src12.nontrivial), _src12.obligations
+    for f in _src12.findings:
+        rl7.fail(f.func, f.construct, f.message, f.loc, f.detail)
+    rules.append(rl7)
     rg = Rule("C07", "C07.f", "a call releases only claims it took itself: no release is reached, on the normal path, on a "
               "rejection path or on an I/O-fault path, without the same claim being held by this call", floor=6)
     release_held_rule(A, rg, OBJ_ENTRIES + ["store_metadata", "delete_metadata"])
@@ -567,8 +574,8 @@ def check_C08(A: Analysis, tier):
             k = (e, ev.func.qual, ev.line)
             if k in seen_i:
                 continue
-            guarded = any(f_[0] == "probe" and f_[1] == "isfile" and f_[2] == ev.paths[0] and pol is True for f_, pol in ev.facts) \
-                or F.implied(ev.facts, ("probe", "isfile", ev.paths[0], frozenset())) is True
+            guarded = any(f_[0] == "probe" and f_[1] in ("isfile", "is_file") and f_[2] == ev.paths[0] and pol is True for f_, pol in ev.facts) \
+                or any(F.implied(ev.facts, ("probe", nm_, ev.paths[0], frozenset())) is True for nm_ in ("isfile", "is_file"))
             ri8.inst(f"{e}: {ev.func.qual}:{ev.line} open({showv(ev.paths[0])[:30]}) " + ("after isfile" if guarded else "unguarded"))
             if not guarded:
                 seen_i.add(k)
@@ -577,6 +584,10 @@ def check_C08(A: Analysis, tier):
                          + (f" while the call holds {sorted(l[0] for l in ev.held_must)}" if ev.held_must else "") + ", so the call never returns",
                          site_loc(A, ev), {"entry": e})
     rules.append(ri8)
+    rj8 = Rule("C08", "C08.j", "a call releases only claims it took itself (the rule of C07.f): a release reached on a rejection path takes away the claim of the call "
+               "in progress, whose own release then raises in the middle of its release sequence and leaves its other claims held for ever", floor=6)
+    release_held_rule(A, rj8, OBJ_ENTRIES + ["store_metadata", "delete_metadata"])
+    rules.append(rj8)
     return rules
 
 
